@@ -277,6 +277,7 @@ def run_dir1(case, wd: Path):
         if any(len(d) != hsize for d in table):
             bad('chunk table entry is not a digest of the configured hash', 'snapshot_object')
         referenced |= set(table)
+        spans, bycounter = [], {}
         seen_paths = [f.get('path') for f in data['files']]
         if sorted(seen_paths) != sorted(st):
             bad(f'files recorded {len(seen_paths)} != files in the tree {len(st)}', 'file_set')
@@ -312,9 +313,29 @@ def run_dir1(case, wd: Path):
                 if (i > 0 and a != 0) or (i < len(ne) - 1 and b != n) or (i > 0 and c != ne[i - 1][0] + 1):
                     bad(f'ranges of a file are not consecutive in the chunk stream: {[(x[0], x[2], x[3], x[4]) for x in ne]}', 'tiling')
                     break
+            for c, i, _, _, _ in lay:
+                bycounter[c] = table[i]
+            if ne:
+                spans.append((ne[0][0], ne[0][2], size))
             obs['files'].append({'refs': [[a, b, c] for c, _, a, b, _ in lay],
                                  'chunks': {str(c): rd.chunk_plaintext(table[i]).hex() for c, i, _, _, _ in lay},
                                  'want': want.hex()})
+        # the chunk stream: files start at multiples of the chunker alignment (4), zero padding in between
+        if bycounter and set(bycounter) == set(range(1, max(bycounter) + 1)):
+            offs, pos, stream = {}, 0, b''
+            for c in range(1, max(bycounter) + 1):
+                offs[c] = pos
+                plain = rd.chunk_plaintext(bycounter[c])
+                pos += len(plain)
+                stream += plain
+            placed = sorted((offs[c] + a, n) for c, a, n in spans)
+            for j, (start, n) in enumerate(placed):
+                nxt = placed[j + 1][0] if j + 1 < len(placed) else None
+                if start % 4 or (nxt is not None and (nxt - (start + n) != (-n) % 4 or stream[start + n:nxt].strip(b'\0'))):
+                    bad(f'files are not laid out at multiples of the alignment with zero padding: {placed}', 'padding')
+                    break
+            if placed and placed[-1][0] + placed[-1][1] != len(stream):
+                bad('the chunk stream extends past the last file', 'padding')
         if used_idx != set(range(len(table))) and data['files'] and any(f['chunks'] for f in data['files']):
             # every table entry is referenced by a range, except chunks of pure padding
             unused = [rd.chunk_plaintext(table[i]) for i in set(range(len(table))) - used_idx]
@@ -890,12 +911,12 @@ def corpus_cases():
 def run(ctx) -> Report:
     rep = Report(rule=RULE)
     corpus = corpus_cases()
-    c1 = [c for c in corpus if c.get('dir') == 1] + [gen_case1(ctx.rng) for _ in range(ctx.scale(45, 700))]
-    c2 = [c for c in corpus if c.get('dir') == 2] + [gen_case2(ctx.rng) for _ in range(ctx.scale(60, 900))]
+    c1 = [c for c in corpus if c.get('dir') == 1] + [gen_case1(ctx.rng) for _ in range(ctx.scale(80, 900))]
+    c2 = [c for c in corpus if c.get('dir') == 2] + [gen_case2(ctx.rng) for _ in range(ctx.scale(110, 1200))]
     seeds = do_dir1(rep, ctx, c1)
     do_dir2(rep, ctx, c2)
-    check_locations(rep, ctx, seeds, ctx.scale(300, 3000))
-    check_json(rep, ctx, ctx.scale(160, 2000))
+    check_locations(rep, ctx, seeds, ctx.scale(450, 3000))
+    check_json(rep, ctx, ctx.scale(240, 2000))
     readme_probe(rep)
     return rep
 
